@@ -356,7 +356,17 @@ class ServiceClass:
                     f"(Warning - {status[1]})"
                 )
                 self.dimse.send_msg(rsp, cx_id)
-                continue
+                if (
+                    rsp.Status == 0xB001
+                    and context.abstract_syntax == "1.2.840.10008.5.1.4.1.1.201.6"
+                ):
+                    # Repository Query: PS3.4, Annex C.6.4.4
+                    #   0xB001 conveys the end of the Pending responses and is
+                    #   followed by the final response
+                    continue
+
+                # Any other non-Pending response is final
+                return
 
             if status[0] == STATUS_PENDING:
                 # If pending, `dataset` is the Identifier
